@@ -192,6 +192,11 @@ class Result:
         self.distinct.add(key)
 
     def violation(self, fingerprint, description, replay, has_input=True):
+        # a broken tree can disagree on every input: the first 25 distinct violations are reported,
+        # the rest only counted
+        if len(self.violations) >= 25:
+            self.extra["further_violations_not_reported"] = self.extra.get("further_violations_not_reported", 0) + 1
+            return
         self.violations.append((fingerprint, description, replay, has_input))
 
     def finish(self):
